@@ -731,6 +731,15 @@ func runC07(input string) string {
 			k, _ := strconv.Atoi(f[1])
 			if k < len(hs) && hs[k].live && !hs[k].isStr {
 				n, _ := strconv.ParseInt(f[2], 10, 64)
+				// every OTHER live byte value, seen through an emptied view of its storage (e := b[:0], as a field is after
+				// Reset when the value was assigned to it by reference): a conversion into such a destination must not be
+				// rendered into the storage it still points at
+				for j, h := range hs {
+					if j != k && h.live && !h.isStr && len(*h.b) > 0 {
+						e := (*h.b)[:0]
+						inspector.Assign(&e, n)
+					}
+				}
 				inspector.Assign(hs[k].b, n)
 			}
 		default:
